@@ -84,7 +84,8 @@ impl Iterator for CharIter<'_> {
         Some(c)
     }
     fn size_hint(&self) -> (usize, Option<usize>) {
-        (self.hint, None)
+        // exact, like a slice or vector iterator, when the hint is the true number of items still to come
+        (self.hint, (self.hint == self.items.len() - self.pos.min(self.items.len())).then_some(self.hint))
     }
 }
 
@@ -132,7 +133,7 @@ impl<'a> Iterator for RefIter<'a> {
         Some(&*Box::leak(Box::new(c)))
     }
     fn size_hint(&self) -> (usize, Option<usize>) {
-        (self.hint, None)
+        (self.hint, self.inner.size_hint().1.filter(|u| *u == self.hint))
     }
 }
 
